@@ -3,7 +3,7 @@
 From Coq Require Import List Arith Bool.
 From M Require Import Base Flat Hsm HsmSpec.
 From P Require Import HsmForest HsmResolve HsmOffer MonadP CrashGen HsmExec.
-From P Require HsmIff HsmDecl HsmReach HsmTotal.
+From P Require HsmIff HsmDecl HsmReach HsmTotal HsmOrder.
 Import ListNotations.
 
 (* ---------- transition resolution ---------- *)
@@ -211,6 +211,54 @@ Example C03_no_internal_error_nonvacuous :
   snd (Hsm.trigger_event hm (fun _ _ => mkReply true None []) (mkCtx 0 0 false) 1 0
          [Node 1 [Node 2 [Node 3 []]; Node 4 [Node 5 []]]]) = inl AttributeError.
 Proof. vm_compute. repeat split; reflexivity. Qed.
+
+(* ---------- the order of the offers, all scopes ---------- *)
+(* [HsmOrder.seq_f hm e s sc l]: for every tree of l that is active below scope sc - first, recursively, the scopes
+   nested inside it (so the DEEPEST declaring scope comes first), then scope sc itself: if it declares e, the
+   sources of that branch which have candidates and are active, in resolve order (deepest source first), each
+   contributing prepare_event, and per candidate its prepare callbacks and its first condition.
+   Theorem: when no callback raises, every callback returns False and every transition of the event starts with
+   a condition (so every candidate is evaluated and blocked), the dispatch of the event leaves the configuration
+   alone, does not answer True, and runs exactly these callbacks in exactly this order - for every machine, state
+   tree and configuration.  This is the order in which (scope, source) pairs are asked: scope-major, the fact
+   behind KF-C03-1. *)
+Theorem C03_quiet_offer_order :
+  forall (hm : hmachine) (ev : env) (c : ctx) (e : event),
+    (forall cb q, r_raise (ev cb q) = None) -> (forall cb q, r_ret (ev cb q) = false) ->
+    (forall sc ts t, lookup (scope_events hm sc) e = Some ts -> In t ts -> HsmOrder.guarded t) ->
+    forall (f : forest) (p : nat),
+    exists tr r, dispatch_f hm ev c e [] f None p f = (tr, f, inr r) /\ r <> Some true /\
+                 map (@it_cb forest) tr = HsmOrder.seq_f hm e f [] f.
+Proof. exact HsmOrder.dispatch_quiet_order. Qed.
+Print Assumptions C03_quiet_offer_order.
+
+Theorem C03_quiet_trigger_order :
+  forall (hm : hmachine) (ev : env) (c : ctx) (e : event),
+    (forall cb q, r_raise (ev cb q) = None) -> (forall cb q, r_ret (ev cb q) = false) ->
+    (forall sc ts t, lookup (scope_events hm sc) e = Some ts -> In t ts -> HsmOrder.guarded t) ->
+    forall (f : forest) (p : nat) tr f' r,
+    Hsm.trigger_event hm ev c e p f = (tr, f', r) ->
+    (exists tr0, dispatch_f hm ev c e [] f None p f = (tr0, f, inr (Some false))) ->
+    f' = f /\ r = inr false /\ map (@it_cb forest) tr = HsmOrder.seq_f hm e f [] f ++ hm_finalize hm.
+Proof. exact HsmOrder.trigger_quiet_order. Qed.
+Print Assumptions C03_quiet_trigger_order.
+
+(* non-vacuity and reading aid: states 1 > 2 > 3 and 1 > 4 (1 parallel); the event is declared inside 1 for source
+   2 (condition 20), inside 1_2 for source 3 (condition 10), and globally for 1_2_3 (condition 30) and 1_4
+   (condition 40): the deepest scope 1_2 is asked first, then scope 1, then the machine's own transitions in
+   resolve order (deepest source first) *)
+Example C03_quiet_order_example :
+  let hm := mkHM [SDef 1 [] [] [] false None [2; 4] [(0, [mkHT [2] None [] [(20, true)] [] []])]
+                    [SDef 2 [] [] [] false None [3] [(0, [mkHT [3] None [] [(10, true)] [] []])]
+                       [SDef 3 [] [] [] false None [] [] []];
+                     SDef 4 [] [] [] false None [] [] []]]
+                 [(0, [mkHT [1; 4] None [] [(40, true)] [] []; mkHT [1; 2; 3] None [] [(30, true)] [] []])]
+                 [] [] [] [99] [] [] false false in
+  let f := [Node 1 [Node 2 [Node 3 []]; Node 4 []]] in
+  HsmOrder.seq_f hm 0 f [] f = [10; 20; 30; 40] /\
+  map (@it_cb forest) (fst (fst (Hsm.trigger_event hm (fun _ _ => mkReply false None []) (mkCtx 0 0 false) 0 0 f)))
+    = [10; 20; 30; 40; 99].
+Proof. vm_compute. split; reflexivity. Qed.
 
 (* ---------- the same event in two scopes (KF-C03-1) ---------- *)
 (* An ancestor's transition declared inside a state definition wins over its descendant's
